@@ -47,6 +47,15 @@ def param_of(f, e):
     return None
 
 
+def dialect_flags_local(d, l):
+    """l is the dialect's effective flag set: a non-parameter ClvmFlags local every assignment of which starts from self.flags
+    (by type and provenance - not by the name `flags`)"""
+    if l <= d.nargs or "ClvmFlags" not in d.local_ty(l):
+        return False
+    srcs = [show(d.expr_rvalue(d.def_rvalue(s_), deep=False)) for s_ in d.defs(l)]
+    return bool(srcs) and all("self.flags" in x for x in srcs)
+
+
 def unname(e):
     """expand named locals to their defining expressions"""
     if isinstance(e, tuple):
@@ -243,7 +252,7 @@ def run(ctx):
     if ok:
         b, t = ind[0]
         args = [param_of(rop, rop.expr_op(a)) for a in t["args"]]
-        fp = show(unname(rop.expr_op(t["fptr"])))
+        fp = rop.unparam(show(unname(rop.expr_op(t["fptr"]))))
         det.update({"args": args, "callee": fp[:160]})
         guard = False
         for x in rop.dominators(b):
@@ -253,11 +262,11 @@ def run(ctx):
             if n and n[2] == "==0" and n[1] == -1 and len(n[0]) == 1 and "len(" in mir.show_norm(n):
                 be = rop.bool_edges(x)
                 # the length operand is the operator atom's bytes
-                src = show(unname(rop.switch_cond(x)))
-                if be and rop.dominates(be[0], b) and "Allocator::atom(&allocator, o)" in src.replace("*", ""):
+                src = rop.unparam(show(unname(rop.switch_cond(x))))      # (self, allocator $2, o $3, argument_list $4, max_cost $5, ..)
+                if be and rop.dominates(be[0], b) and "Allocator::atom(&$2, $3)" in src.replace("*", ""):
                     guard = True
         det["length==1 guard on the operator atom dominates"] = guard
-        idx_ok = "self.f_lookup[" in fp and "[0] as usize" in fp.replace("(", "").replace(")", "") and "Allocator::atom(&allocator, o" in fp.replace("*", "")
+        idx_ok = "self.f_lookup[" in fp and "[0] as usize" in fp.replace("(", "").replace(")", "") and "Allocator::atom(&$2, $3" in fp.replace("*", "")
         det["index is byte 0 of the operator atom"] = idx_ok
         ok = guard and idx_ok and args == [2, 4, 5, "self.flags"]
     ck.ob("R30b", RD + "op|table call", ok,
@@ -271,7 +280,7 @@ def run(ctx):
         a = [rop and d.expr_op(x, deep=False) for x in t["args"]]
         p = [param_of(d, x) for x in a[:3]]
         fl = strip(a[3])
-        oks.append(p == [2, 4, 5] and fl[0] == "var" and fl[1] == "flags")
+        oks.append(p == [2, 4, 5] and fl[0] == "var" and dialect_flags_local(d, fl[2]))
         if fl[0] == "var":
             fl_locals.add(fl[2])
     ck.ob("R30b", CD + "op|operator call", bool(cind) and all(oks),
@@ -351,12 +360,12 @@ def run(ctx):
         a = [d.expr_op(x, deep=False) for x in t["args"]]
         p = [param_of(d, a[0]), param_of(d, a[1]), param_of(d, a[2]), param_of(d, a[4])]
         fl = strip(a[3])
-        if p != [2, 3, 4, 5] or not (fl[0] == "var" and fl[1] == "flags"):
+        if p != [2, 3, 4, 5] or not (fl[0] == "var" and dialect_flags_local(d, fl[2])):
             bad.append(d.where(b))
     ck.ob("R30c", CD + "op|unknown_operator calls", bool(ucalls) and not bad,
           "every unknown_operator call in ChiaDialect::op passes (allocator, o, argument_list, flags, max_cost)", site=d.where(0),
           detail={"calls": len(ucalls), "bad": bad})
-    ck.floor("unknown_operator call sites in ChiaDialect::op", len(ucalls), 4)
+    ck.floor("unknown_operator call sites in ChiaDialect::op", len(ucalls), 2)
     # everything in RuntimeDialect::op that is not the table call goes to the unknown path
     ts = [t for t in flag_tests(rop) if t["flag"] == "NO_UNKNOWN_OPS"]
     if ts and ind:
@@ -462,7 +471,7 @@ def run(ctx):
                 ck.ob("R30d", f"{tag}{path}|LIMITS test {i}", ok,
                       "a LIMITS test is immediately conjoined with !NEW_COST_MODEL: with both flags set the code behaves as without LIMITS",
                       site=g.where(t["block"]))
-    ck.floor("LIMITS tests", n_lim, 26)
+    ck.floor("LIMITS tests", n_lim, 16)
 
     # ------------------------------------------------------------------ R30e
     for name, fieldname in (("quote_kw", "quote_kw"), ("apply_kw", "apply_kw"), ("softfork_kw", "softfork_kw")):
